@@ -2,45 +2,47 @@
 From Coq Require Import List NArith.
 Import ListNotations.
 Open Scope N_scope.
+(** [tie s P]: the source value, where it still stands at its place, satisfies P *)
+Definition tie {A : Type} (s : option A) (P : A -> Prop) : Prop := match s with Some v => P v | None => True end.
 
-Definition s_ecdsa_dst : list N := [69; 67; 68; 83; 65; 32; 75; 101; 121; 32; 66; 108; 105; 110; 100]. (* 'ECDSA Key Blind' *)
-Definition s_ecdsa_L : list N := [32; 48; 72; 98].
-Definition s_ecdsa_curves : list (list N) := [[80; 45; 50; 50; 52]; [80; 45; 50; 53; 54]; [80; 45; 51; 56; 52]; [80; 45; 53; 50; 49]].
-Definition s_ecdsa_sep : N := 0.
-Definition s_ecdsa_sign_entropy : N := 32.
-Definition s_t3_client_blind_attester_verify : list N := [67; 108; 105; 101; 110; 116; 66; 108; 105; 110; 100]. (* 'ClientBlind' *)
-Definition s_t3_client_blind_attester_finalize : list N := [67; 108; 105; 101; 110; 116; 66; 108; 105; 110; 100]. (* 'ClientBlind' *)
-Definition s_t3_client_blind_client : list N := [67; 108; 105; 101; 110; 116; 66; 108; 105; 110; 100]. (* 'ClientBlind' *)
-Definition s_t3_issuer_blind : list N := [73; 115; 115; 117; 101; 114; 66; 108; 105; 110; 100]. (* 'IssuerBlind' *)
-Definition s_t3_index_info : list N := [73; 115; 115; 117; 101; 114; 79; 114; 105; 103; 105; 110; 65; 108; 105; 97; 115]. (* 'IssuerOriginAlias' *)
-Definition s_t3_label_key : list N := [107; 101; 121]. (* 'key' *)
-Definition s_t3_label_nonce : list N := [110; 111; 110; 99; 101]. (* 'nonce' *)
-Definition s_t3_info_request_client : list N := [84; 111; 107; 101; 110; 82; 101; 113; 117; 101; 115; 116]. (* 'TokenRequest' *)
-Definition s_t3_info_response_client : list N := [84; 111; 107; 101; 110; 82; 101; 115; 112; 111; 110; 115; 101]. (* 'TokenResponse' *)
-Definition s_t3_info_request_issuer : list N := [84; 111; 107; 101; 110; 82; 101; 113; 117; 101; 115; 116]. (* 'TokenRequest' *)
-Definition s_t3_info_response_issuer : list N := [84; 111; 107; 101; 110; 82; 101; 115; 112; 111; 110; 115; 101]. (* 'TokenResponse' *)
-Definition s_t3_pad : list N := [].
-Definition s_t3_request_fields : list N := [49; 32; 96].
-Definition s_type1 : N := 1.
-Definition s_type2 : N := 2.
-Definition s_type3 : N := 3.
-Definition s_type5 : N := 5.
-Definition s_nk1 : N := 48.
-Definition s_ne1 : N := 49.
-Definition s_nk2 : N := 256.
-Definition s_token1_fields : list N := [32; 32; 32].
-Definition s_token2_fields : list N := [32; 32; 32; 256].
-Definition s_token3_fields : list N := [32; 32; 32; 256].
-Definition s_token5_fields : list N := [32; 32; 32; 64].
-Definition s_oid_pss : list N := [1; 2; 840; 113549; 1; 1; 10].
-Definition s_oid_sha384 : list N := [2; 16; 840; 1; 101; 3; 4; 2; 2].
-Definition s_oid_mgf1 : list N := [1; 2; 840; 113549; 1; 1; 8].
-Definition s_pss_salt : N := 48.
-Definition s_varint_thresholds : list N := [63; 16383; 1073741823; 4611686018427387903].
-Definition s_varint_size_thresholds : list N := [63; 16383; 1073741823; 4611686018427387903].
-Definition s_max_varint : N := 4611686018427387903.
-Definition s_ed_sizes : list N := [32; 64; 64; 32].
-Definition s_ed_blind_sep : N := 0.
-Definition s_ed_sign_blind_sep : N := 0.
-Definition s_challenge_sep_marshal : list N := [44]. (* ',' *)
-Definition s_challenge_sep_unmarshal : list N := [44]. (* ',' *)
+Definition s_ecdsa_dst : option (list N) := Some [69; 67; 68; 83; 65; 32; 75; 101; 121; 32; 66; 108; 105; 110; 100]. (* 'ECDSA Key Blind' *)
+Definition s_ecdsa_L : option (list N) := Some [32; 48; 72; 98].
+Definition s_ecdsa_curves : option (list (list N)) := Some [[80; 45; 50; 50; 52]; [80; 45; 50; 53; 54]; [80; 45; 51; 56; 52]; [80; 45; 53; 50; 49]].
+Definition s_ecdsa_sep : option N := Some 0.
+Definition s_ecdsa_sign_entropy : option N := Some 32.
+Definition s_t3_client_blind_attester_verify : option (list N) := Some [67; 108; 105; 101; 110; 116; 66; 108; 105; 110; 100]. (* 'ClientBlind' *)
+Definition s_t3_client_blind_attester_finalize : option (list N) := Some [67; 108; 105; 101; 110; 116; 66; 108; 105; 110; 100]. (* 'ClientBlind' *)
+Definition s_t3_client_blind_client : option (list N) := Some [67; 108; 105; 101; 110; 116; 66; 108; 105; 110; 100]. (* 'ClientBlind' *)
+Definition s_t3_issuer_blind : option (list N) := Some [73; 115; 115; 117; 101; 114; 66; 108; 105; 110; 100]. (* 'IssuerBlind' *)
+Definition s_t3_index_info : option (list N) := Some [73; 115; 115; 117; 101; 114; 79; 114; 105; 103; 105; 110; 65; 108; 105; 97; 115]. (* 'IssuerOriginAlias' *)
+Definition s_t3_label_key : option (list N) := Some [107; 101; 121]. (* 'key' *)
+Definition s_t3_label_nonce : option (list N) := Some [110; 111; 110; 99; 101]. (* 'nonce' *)
+Definition s_t3_info_request_client : option (list N) := Some [84; 111; 107; 101; 110; 82; 101; 113; 117; 101; 115; 116]. (* 'TokenRequest' *)
+Definition s_t3_info_response_client : option (list N) := Some [84; 111; 107; 101; 110; 82; 101; 115; 112; 111; 110; 115; 101]. (* 'TokenResponse' *)
+Definition s_t3_info_request_issuer : option (list N) := Some [84; 111; 107; 101; 110; 82; 101; 113; 117; 101; 115; 116]. (* 'TokenRequest' *)
+Definition s_t3_info_response_issuer : option (list N) := Some [84; 111; 107; 101; 110; 82; 101; 115; 112; 111; 110; 115; 101]. (* 'TokenResponse' *)
+Definition s_t3_pad : option (list N) := Some [31; 1; 32].
+Definition s_t3_request_fields : option (list N) := Some [49; 32; 96].
+Definition s_type1 : option N := Some 1.
+Definition s_type2 : option N := Some 2.
+Definition s_type3 : option N := Some 3.
+Definition s_type5 : option N := Some 5.
+Definition s_nk1 : option N := Some 48.
+Definition s_ne1 : option N := Some 49.
+Definition s_nk2 : option N := Some 256.
+Definition s_token1_fields : option (list N) := Some [32; 32; 32].
+Definition s_token2_fields : option (list N) := Some [32; 32; 32; 256].
+Definition s_token3_fields : option (list N) := Some [32; 32; 32; 256].
+Definition s_token5_fields : option (list N) := Some [32; 32; 32; 64].
+Definition s_oid_pss : option (list N) := Some [1; 2; 840; 113549; 1; 1; 10].
+Definition s_oid_sha384 : option (list N) := Some [2; 16; 840; 1; 101; 3; 4; 2; 2].
+Definition s_oid_mgf1 : option (list N) := Some [1; 2; 840; 113549; 1; 1; 8].
+Definition s_pss_salt : option N := Some 48.
+Definition s_varint_thresholds : option (list N) := Some [63; 16383; 1073741823; 4611686018427387903].
+Definition s_varint_size_thresholds : option (list N) := Some [63; 16383; 1073741823; 4611686018427387903].
+Definition s_max_varint : option N := Some 4611686018427387903.
+Definition s_ed_sizes : option (list N) := Some [32; 64; 64; 32].
+Definition s_ed_blind_sep : option N := Some 0.
+Definition s_ed_sign_blind_sep : option N := Some 0.
+Definition s_challenge_sep_marshal : option (list N) := Some [44]. (* ',' *)
+Definition s_challenge_sep_unmarshal : option (list N) := Some [44]. (* ',' *)
